@@ -142,6 +142,17 @@ def key_is_final():
 
 
 def laws(arg):
+    try:
+        return _laws(arg)
+    except TypeError as e:
+        # a comparison between two specifications refused to answer (both sides
+        # returned NotImplemented): the interpreter raises, not the library
+        return dict(viol=[dict(sig='C12:comparison-raises', case=dict(tier=arg['tier'], kind='comparison-raises'),
+                               detail=dict(kind='comparison-raises', error=repr(e)))],
+                    n=0, fp='(aborted)', order=[], nsort=0, pairs=0)
+
+
+def _laws(arg):
     tier = arg['tier']
     IF, twins, SPECS, FOREIGN, labels, keep = universe()
     U = IF + twins + SPECS
@@ -286,7 +297,7 @@ def replay(case):
             return dict(violation='comparison matrix / sort order differs from the reference process',
                         order=r['order'])
         return None
-    vs = [v for v in r['viol'] if v['case']['kind'] == case['kind']]
+    vs = [v for v in r['viol'] if v['case']['kind'] in (case['kind'], 'comparison-raises')]
     return dict(violation=vs[0]['detail']) if vs else None
 
 
